@@ -941,7 +941,7 @@ func c21Probe(c *Ctx) map[string]bool {
 }
 
 func c21(c *Ctx) {
-	c.Rule = "random CFGs in which every nonterminal is reachable from the start symbol (2-5 nonterminals, 2-5 terminals, empty rules, back references = recursion; LALR(1) conflict-free, all productive) decorated with nested arrows whose node type names are drawn WITH reuse from a pool of 3-8 names (merged phrases, multi-type selectors, fields of equal selector -> FetchAfter chains), named fields f=X / f+=X on single-field elements, optional parts, lists (X+, X*, (X separator t)+, (… -> T)+), categories (%interface on nonterminals whose rules all carry an arrow), reported terminals (%inject on grammar terminals), an injected comment token (placed between tokens of the inputs) and fileNode; compiled by the REAL compiler with eventFields+eventAST (grammars it rejects — overlapping fields, several fields behind an assignment, conflicts introduced by the decoration — are counted and skipped; up to 40 decorations per base grammar). Two of five grammars come, in rotation, from four hand-shaped random families written directly as .tm (c21fam.go, own PRNG per grammar): `cycle` = recursion through 2-4 nonterminals (mostly 3-4) with no arrow inside the cycle, random entry member, each member contributing a node / a terminal / nothing (SCC detection in nontermPhrase: all fields of the enclosing node must become lists); `groups` = one node with ordered named fields in 2-3 separate groups of overlapping node types — a plain node, a category, or category-less UNION selectors built from helper nonterminals `U: gN=(t -> X) | gN=(u -> Y)` over partly overlapping subsets —, the last field of a group optional or a list at random (FetchAfter chains of fixConflictingFields, selector variables of go_ast.go.tmpl); `sharednt` = a helper nonterminal H without arrow whose named field merges m = 1..7 node types, used (mostly H first) from 2-3 typed parents that each add their own alternative to the same field, directly or through a transparent nonterminal, declarations in random order, `Root: Par | Par Par` so that every alternative of every parent is among the enumerated sentences (mergeFields vs the phrase cache); `shared` = reported terminals sharing one node name with other %inject lines in between (shape X…Y…X forced in 3 of 4), or named like a field-less node an arrow produces, used inside typed rules (token -> range type binding in resolveTypes). A generated package that does not build is reported and the rest of the batch is still run. Per grammar: (1) `validate`: Parser.Types + compiled rules/reports -> Lean checkTypes (hypothesis of C21_checkTypes_sound; textmapper.tm and, in the thorough tier, js.tm go through `fields` = checkFields because they contain a possibly-empty node); (2) END TO END, independent of the validator: the generated ast packages are built in one batch and for every sentence of the compiled grammar up to 6 tokens (cap 300) plus 40 random sentences the whole tree is walked and EVERY accessor of EVERY node is called (calls generated from Parser.Types, each under recover) and the factory To<Lang>Node on every node: panic, invalid required node, node outside the receiver's children, node type outside the expanded selector, presence flag mismatch, child (other than an injected token) returned by no accessor -> violation with grammar and input; (3) `access`: what the real accessors returned vs Lean `access` (mirror of the template chain) on the observed child sequence, judged by the property on disagreement; (4) `seqs`: every observed child sequence of a T node must be in L(approx g T) (ties `layout`/ChildSeq to the offset-based tree builder). non-trivial = grammar with a node type of >= 2 fields; distinct by grammar text. KNOWN DEFECT CLASSES: at start-up one minimal witness grammar per class is run against the real code (probe); while a class misbehaves it is reported ONCE with its token and the random stream avoids exactly that class, once its probe passes the stream includes it. [C21-empty-node] a reported range or typed rule that can derive the empty string (the AST builder nests by offsets: an empty node becomes a child of the following sibling or leaves its parent) — avoided by skipping grammars whose COMPILED rules contain such a range; [C21-separator-token] a reported terminal used as a list separator (exprPhrase ignores List.Sub[1], the separator nodes are returned by no accessor) — avoided by drawing separators from unreported terminals; [C21-tokenset-interface] an interface the grammar itself names `TokenSet` (the template omits `func (NilNode) tokenSetNode()`, an absent optional field of that category panics) — avoided by never using that name; [C21-required-list-empty] a list field declared `(X)+` that can be empty (phrase cache shared by all members of a recursive SCC) — COUNTED, not a violation: the generated Go API returns a slice for `(X)+` and `(X)*` alike, IsRequired of a list field only appears in the descriptor comment of listener.go."
+	c.Rule = "random CFGs in which every nonterminal is reachable from the start symbol (2-5 nonterminals, 2-5 terminals, empty rules, back references = recursion; LALR(1) conflict-free, all productive) decorated with nested arrows whose node type names are drawn WITH reuse from a pool of 3-8 names (merged phrases, multi-type selectors, fields of equal selector -> FetchAfter chains), named fields f=X / f+=X on single-field elements, optional parts, lists (X+, X*, (X separator t)+, (… -> T)+), categories (%interface on nonterminals whose rules all carry an arrow), reported terminals (%inject on grammar terminals), an injected comment token (placed between tokens of the inputs) and fileNode; compiled by the REAL compiler with eventFields+eventAST (grammars it rejects — overlapping fields, several fields behind an assignment, conflicts introduced by the decoration — are counted and skipped; up to 40 decorations per base grammar). Two of five grammars come, in rotation, from four hand-shaped random families written directly as .tm (c21fam.go, own PRNG per grammar): `cycle` = recursion through 2-4 nonterminals (mostly 3-4) with no arrow inside the cycle, random entry member, each member contributing a node / a terminal / nothing (SCC detection in nontermPhrase: all fields of the enclosing node must become lists); `groups` = one node with ordered named fields in 2-3 separate groups of overlapping node types — a plain node, a category, or category-less UNION selectors built from helper nonterminals `U: gN=(t -> X) | gN=(u -> Y)` over partly overlapping subsets —, the last field of a group optional or a list at random (FetchAfter chains of fixConflictingFields, selector variables of go_ast.go.tmpl); `sharednt` = a helper nonterminal H without arrow whose named field merges m = 1..7 node types, used (mostly H first) from 2-3 typed parents that each add their own alternative to the same field, directly or through a transparent nonterminal, declarations in random order, `Root: Par | Par Par` so that every alternative of every parent is among the enumerated sentences (mergeFields vs the phrase cache); `shared` = reported terminals sharing one node name with other %inject lines in between (shape X…Y…X forced in 3 of 4), or named like a field-less node an arrow produces, used inside typed rules (token -> range type binding in resolveTypes). A generated package that does not build is reported and the rest of the batch is still run. Per grammar: (1) `validate`: Parser.Types + compiled rules/reports -> Lean checkTypes (hypothesis of C21_checkTypes_sound; textmapper.tm and, in the thorough tier, js.tm go through `fields` = checkFields because they contain a possibly-empty node); (2) END TO END, independent of the validator: the generated ast packages are built in one batch and for every sentence of the compiled grammar up to 6 tokens (cap 300) plus 40 random sentences the whole tree is walked and EVERY accessor of EVERY node is called (calls generated from Parser.Types, each under recover) and the factory To<Lang>Node on every node: panic, invalid required node, node outside the receiver's children, node type outside the expanded selector, presence flag mismatch, child (other than an injected token) returned by no accessor -> violation with grammar and input; (3) `access`: what the real accessors returned vs Lean `access` (mirror of the template chain) on the observed child sequence, judged by the property on disagreement; (4) `seqs`: every observed child sequence of a T node must be in L(approx g T) (ties `layout`/ChildSeq to the offset-based tree builder). non-trivial = grammar with a node type of >= 2 fields; distinct by grammar text. KNOWN DEFECT CLASSES: at start-up one minimal witness grammar per class is run against the real code (probe); while a class misbehaves it is reported ONCE with its token and the random stream avoids exactly that class, once its probe passes the stream includes it. [C21-empty-node] a reported range or typed rule that can derive the empty string (the AST builder nests by offsets: an empty node becomes a child of the following sibling or leaves its parent) — avoided by skipping grammars whose COMPILED rules contain such a range; [C21-separator-token] a reported terminal used as a list separator (exprPhrase ignores List.Sub[1], the separator nodes are returned by no accessor) — avoided by drawing separators from unreported terminals; [C21-tokenset-interface] an interface the grammar itself names `TokenSet` (the template omits `func (NilNode) tokenSetNode()`, an absent optional field of that category panics) — avoided by never using that name; [C21-required-list-empty] a list field declared `(X)+` that can be empty (phrase cache shared by all members of a recursive SCC) — COUNTED, not a violation: the generated Go API returns a slice for `(X)+` and `(X)*` alike, IsRequired of a list field only appears in the descriptor comment of listener.go.; further families: twins (lists whose elements are structurally identical and differ only in the node name after ->), inputs (a second, mostly no-eoi %input whose subtree has fields of its own; every user input is an entry point of the runner: input 0 through the generated ast.Parse, further inputs through a builder copy VerifParse added to the scratch package), catopt (category rules `-> Value` with optional parts, which the compiler must reject or handle)"
 	if f := os.Getenv("TMH_C21_FILE"); f != "" {
 		c21Debug(c, f)
 		return
